@@ -494,6 +494,24 @@ func (u *Unit) clauseFunc(fn *ssa.Function, name string) *ssa.Function {
 }
 
 func (u *Unit) useContract(st *State, fr *Frame, in *ssa.Call, fn *ssa.Function, ct *Contract, args []Val, k Kont) {
+	if u.Cfg.InlineOnPreFail && len(ct.Requires) > 0 && fn.Blocks != nil && fr.depth < u.Cfg.MaxDepth {
+		ok := true
+		for _, cl := range ct.Requires {
+			cf := u.clauseFunc(fn, cl.Func)
+			u.goalMode++
+			t := u.evalPure(st, cf, args, nil).(*Term)
+			u.goalMode--
+			if !u.provableQ(t) {
+				ok = false
+				break
+			}
+		}
+		if !ok {
+			u.Inlined[FuncName(fn)+" (precondition not provable here: body executed)"]++
+			u.runFunc(st, fn, args, nil, fr.depth+1, k)
+			return
+		}
+	}
 	u.UsedContracts[FuncName(fn)]++
 	for _, cl := range ct.Requires {
 		cf := u.clauseFunc(fn, cl.Func)
